@@ -1064,7 +1064,7 @@ fn reference_checks(state_path: &Path, p: &dyn Fn(&str) -> PathBuf, op: &OpUnder
 
 /// One enumerated fault position: interrupt VM step `k` (optionally with a second-connection snapshot one step
 /// earlier), check the outcome against pre-state / reference result, and retry after a failure.
-fn fault_position(state_path: &Path, p: &dyn Fn(&str) -> PathBuf, op: &OpUnderTest, info: &RefInfo, k: u64, with_snapshot: bool, st: &mut PosStats) -> Result<(), Fail> {
+fn fault_position(state_path: &Path, p: &dyn Fn(&str) -> PathBuf, op: &OpUnderTest, info: &RefInfo, k: u64, with_snapshot: bool, retry: bool, st: &mut PosStats) -> Result<(), Fail> {
     let kind = op.kind;
     let RefInfo { d0, dr, ref_res, s, commits, .. } = info;
     let (s, commits) = (*s, *commits);
@@ -1144,7 +1144,7 @@ fn fault_position(state_path: &Path, p: &dyn Fn(&str) -> PathBuf, op: &OpUnderTe
             }
         }
         // retry on the same handle: must reach the reference outcome
-        if r.is_err() {
+        if r.is_err() && retry {
             let rr = catch(|| (op.run)(&mut fdb)).map_err(|pn| Fail::new(format!("panic-on-retry:{kind}"), format!("retry of {} panicked: {pn}", op.desc)))?;
             drop(fdb);
             let dretry = canon_dump_x(&p("flt"), op.randomized_raw).map_err(|e| Fail::new("harness-dump", e))?;
@@ -1161,7 +1161,7 @@ fn fault_position(state_path: &Path, p: &dyn Fn(&str) -> PathBuf, op: &OpUnderTe
 
 /// One "denied write" position: the `j`-th authorisation of a row write is refused (`Hooks::install_authorizer`), so
 /// one statement of the operation fails while its transaction stays open. Same oracle as for an interrupted VM step.
-fn denied_write_position(state_path: &Path, p: &dyn Fn(&str) -> PathBuf, op: &OpUnderTest, info: &RefInfo, j: u64, st: &mut PosStats) -> Result<(), Fail> {
+fn denied_write_position(state_path: &Path, p: &dyn Fn(&str) -> PathBuf, op: &OpUnderTest, info: &RefInfo, j: u64, retry: bool, st: &mut PosStats) -> Result<(), Fail> {
     let kind = op.kind;
     let RefInfo { d0, dr, ref_res, write_auths, .. } = info;
     copy_db(state_path, &p("flt"));
@@ -1190,7 +1190,7 @@ fn denied_write_position(state_path: &Path, p: &dyn Fn(&str) -> PathBuf, op: &Op
             vensure!(df == *dr, format!("nondeterministic-operation:{kind}"), "{}: run without a fault differs from the reference run: {}", op.desc, diff_dump(dr, &df));
         }
     }
-    if r.is_err() {
+    if r.is_err() && retry {
         let rr = catch(|| (op.run)(&mut fdb)).map_err(|pn| Fail::new(format!("panic-on-retry:{kind}"), format!("retry of {} panicked: {pn}", op.desc)))?;
         drop(fdb);
         let dretry = canon_dump_x(&p("flt"), op.randomized_raw).map_err(|e| Fail::new("harness-dump", e))?;
@@ -1228,7 +1228,7 @@ fn run_case(ctx: &Ctx, case: &C02Case) -> CaseResult {
     // ---- fault enumeration (writer-side snapshot before every 4th position) ----------------------------
     let mut st = PosStats::default();
     for (pi, k) in positions(info.s, &case.pos_sel, dense).iter().enumerate() {
-        fault_position(&state_path, &p, &op, &info, *k, pi % 4 == 0, &mut st)?;
+        fault_position(&state_path, &p, &op, &info, *k, pi % 4 == 0, true, &mut st)?;
     }
     // ---- failed write statements: all if there are at most 8 (thorough: 48), else the first and last 2 + generated ones
     if is_store_op && info.write_auths > 0 {
@@ -1240,7 +1240,7 @@ fn run_case(ctx: &Ctx, case: &C02Case) -> CaseResult {
             [1, 2, w - 1, w].into_iter().chain(case.pos_sel.iter().cycle().take(budget as usize - 4).enumerate().map(|(i, x)| 1 + (((*x as u64).wrapping_add(i as u64 * 0x9e37_79b9) % (1 << 32)) * w >> 32))).collect()
         };
         for j in js {
-            denied_write_position(&state_path, &p, &op, &info, j, &mut st)?;
+            denied_write_position(&state_path, &p, &op, &info, j, true, &mut st)?;
         }
     }
     let RefInfo { d0, dr, ref_res, s, changed, crash_checked, veto_checked, .. } = info;
@@ -1677,10 +1677,13 @@ fn run_real_proof_subcheck(ctx: &Arc<Ctx>) {
             let info = pre.as_ref().map_err(|f| Fail::new(f.signature.clone(), f.msg.clone()))?;
             let mut st = PosStats::default();
             let i = i as usize - 1;
+            // the retry after the failure doubles an evaluation's cost (a second extraction): quick retries after every
+            // fourth position
+            let retry = dense || i % 4 == 0;
             if i < pos.len() {
-                fault_position(&fx.path, &p, &op, info, pos[i], true, &mut st)?;
+                fault_position(&fx.path, &p, &op, info, pos[i], true, retry, &mut st)?;
             } else {
-                denied_write_position(&fx.path, &p, &op, info, deny[i - pos.len()], &mut st)?;
+                denied_write_position(&fx.path, &p, &op, info, deny[i - pos.len()], retry, &mut st)?;
             }
             Ok(Obs::new(st.mid_write > 0 || st.denied_mid_write > 0)
                 .label_if(st.denied_mid_write > 0, "failed-statement-between-writes")
